@@ -340,9 +340,19 @@ def handover(prog, run):
             continue
         local2role = {u: r for u, r in zip(unpack, ret_names) if u and r}
         stored = {}
+        import copy as _copy
         for s in ast.walk(m.node):
-            if isinstance(s, ast.Assign) and len(s.targets) == 1 and astq.src(s.targets[0]).startswith("self.result.") and isinstance(s.value, ast.Name) and s.value.id in local2role:
-                stored[astq.src(s.targets[0])[len("self.result."):]] = (local2role[s.value.id], s)
+            if not (isinstance(s, ast.Assign) and len(s.targets) == 1):
+                continue
+            t0, v0 = s.targets[0], s.value
+            pairs = list(zip(t0.elts, v0.elts)) if isinstance(t0, ast.Tuple) and isinstance(v0, ast.Tuple) and len(t0.elts) == len(v0.elts) else [(t0, v0)]
+            for t_, v_ in pairs:
+                if not (isinstance(t_, ast.Attribute) and isinstance(v_, ast.Name) and v_.id in local2role):
+                    continue
+                # the object stored into, with local aliases (res = self.result) resolved
+                obj = astq.expr_at(m, s, _copy.deepcopy(t_.value))
+                if astq.src(obj) == "self.result":
+                    stored[t_.attr] = (local2role[v_.id], s)
         for role in ret_names:
             if role is None:
                 continue
